@@ -309,6 +309,7 @@ def tq_summary(ex, fr, st, args, ins):
     """detect.ThresholdQ summarised (its definition is C12): the result is a function of the list of Q-values"""
     cells = ex.slice_cells(st, args[0])
     key = tuple((c.t.get_id() if isinstance(c, FReal) else ('c', c)) for c in cells)
+    pin(*[c.t for c in cells if isinstance(c, FReal)])
     tab = ex.__dict__.setdefault('tq_table', {})
     v = tab.get(key)
     if v is None:
@@ -840,8 +841,10 @@ def _arg_key(ex, st, a):
     if isinstance(a, GSum):
         return ('g',) + a.key()
     if isinstance(a, z3.ExprRef):
+        pin(a)
         return ('z', a.get_id())
     if isinstance(a, FReal):
+        pin(a.t)
         return ('r', a.t.get_id())
     if isinstance(a, FInt):
         return ('fi', _arg_key(ex, st, a.v))
